@@ -4,3 +4,4 @@ import RpyProofs.Props.C17
 import RpyProofs.Props.C20
 import RpyProofs.MatBridge
 import RpyProofs.Props.C04
+import RpyProofs.Props.C10
